@@ -71,9 +71,9 @@ fn fuzz_ctx() -> &'static FuzzCtx {
     static C: OnceLock<FuzzCtx> = OnceLock::new();
     C.get_or_init(|| {
         let prop = std::env::var("HV_FUZZ_PROP").unwrap_or_else(|_| "C01".into()).to_uppercase();
-        let id: &'static str = Box::leak(prop.clone().into_boxed_str());
         crate::engine::install_panic_hook();
-        FuzzCtx { prop, ctx: Ctx::new(id, crate::engine::Tier::Thorough, 0), out: std::env::var("HV_FUZZ_OUT").ok() }
+        let ctx = Ctx::new(&prop, crate::engine::Tier::Thorough, 0);
+        FuzzCtx { prop, ctx, out: std::env::var("HV_FUZZ_OUT").ok() }
     })
 }
 
